@@ -70,7 +70,10 @@ func NewAnalysis(fn *ssa.Function) *pa.Analysis { return pa.NewAnalysis(fn, Pure
 type Write struct {
 	Call    ssa.CallInstruction
 	Arg     ssa.Value
-	Payload string // TokenString | RawData | Space | Other
+	Payload string // TokenString | RawData | Space | Mixed | Other
+	// RawWhen (Payload == Mixed): the written value is a merge of token.String() and raw token.Data; the condition under
+	// which it is the raw data
+	RawWhen *pa.F
 	Arm     string
 	Detail  string
 }
@@ -413,6 +416,30 @@ func (s *San) findWrites() {
 				if len(c.Args) == 1 && (c.Method.Name() == "WriteString") {
 					w.Arg = c.Args[0]
 					w.Payload, w.Detail = s.payload(c.Args[0])
+					// one write site fed from a local that holds token.String() or, on some paths, token.Data
+					if ph, isPhi := c.Args[0].(*ssa.Phi); isPhi && w.Payload == "Other" {
+						var raw []*pa.F
+						okAll, nTS := true, 0
+						for i, e := range ph.Edges {
+							pl, _ := s.payload(e)
+							switch pl {
+							case "TokenString":
+								nTS++
+							case "RawData":
+								t := s.A.PhiTakes(ph, i)
+								if t == nil {
+									okAll = false
+								}
+								raw = append(raw, t)
+							default:
+								okAll = false
+							}
+						}
+						if okAll && nTS > 0 && len(raw) > 0 {
+							w.Payload, w.Detail = "Mixed", "token.String() or, on some paths, token.Data"
+							w.RawWhen = pa.Or(raw...)
+						}
+					}
 				} else {
 					w.Payload, w.Detail = "Other", "invoke "+c.Method.Name()
 				}
